@@ -770,9 +770,7 @@ def check_types(
                 validated.append(_check_arg(arg_name, arg_value))
         return validated
 
-    def validate_kwargs(
-        named_kwargs: Dict[str, Any], kwargs: Dict[str, Any]
-    ) -> Dict[str, Any]:
+    def validate_kwargs(named_kwargs: Dict[str, Any]) -> Dict[str, Any]:
         """
         Validates schemas of both explicit and **kwargs-like function arguments.
 
@@ -780,44 +778,30 @@ def check_types(
             the keyword argument name and value. **kwargs-like arguments are bundled into a single
             dictionary.
             Example: OrderedDict({'kwarg1': 1, 'kwarg2': 2, 'star_kwargs': {'kwarg3': 3, 'kwarg4': 4}})
-        :param kwargs: Unpacked function keyword arguments, as written in the function call.
+        :return: validated function keyword arguments, unpacked as written in
+            the function call.
             Example: {'kwarg1': 1, 'kwarg2': 2, 'kwarg3': 3, 'kwarg4': 4}
-        :return: list of validated function keyword arguments.
         """
 
-        # Check for an '**kwargs'-like argument
-        if kwargs.keys() != named_kwargs.keys():
-            (
-                star_kwargs_name,
-                star_kwargs_dict,
-            ) = named_kwargs.popitem()  # **kwargs is the last item
-
-            explicit_kwargs_dict = {
-                arg_name: _check_arg(arg_name, arg_value)
-                for arg_name, arg_value in named_kwargs.items()
-            }
-
-            star_kwargs_dict = {
-                arg_name: _check_arg(star_kwargs_name, arg_value)
-                for arg_name, arg_value in star_kwargs_dict.items()
-            }
-
-            return {**explicit_kwargs_dict, **star_kwargs_dict}
-
-        else:
-            return {
-                arg_name: _check_arg(arg_name, arg_value)
-                for arg_name, arg_value in named_kwargs.items()
-            }
+        # a '**kwargs'-like argument is recognised by its kind in the
+        # signature: a keyword may be named like the '**kwargs' argument itself
+        validated = {}
+        for arg_name, arg_value in named_kwargs.items():
+            if sig.parameters[arg_name].kind is inspect.Parameter.VAR_KEYWORD:
+                validated.update(
+                    (star_kwarg_name, _check_arg(arg_name, star_kwarg_value))
+                    for star_kwarg_name, star_kwarg_value in arg_value.items()
+                )
+            else:
+                validated[arg_name] = _check_arg(arg_name, arg_value)
+        return validated
 
     def validate_inputs(
         args: Tuple[Any, ...],
         kwargs: Dict[str, Any],
     ) -> Tuple[List[Any], Dict[str, Any]]:
         validated_pos = validate_args(sig.bind_partial(*args).arguments)
-        validated_kwd = validate_kwargs(
-            sig.bind_partial(**kwargs).arguments, kwargs
-        )
+        validated_kwd = validate_kwargs(sig.bind_partial(**kwargs).arguments)
         return validated_pos, validated_kwd
 
     if inspect.iscoroutinefunction(_unwrap_fn(wrapped)):
